@@ -98,5 +98,9 @@ def cfgRejects (cfg wordList : String) : Verdict × List (List String) :=
     | .error _ => (.error, [])
   | .error _ => (.error, [])
 
+/-- the word list printed by the notebook generator's `generate` command: `' '.join(word if word else 'ε' for word in words)` -/
+def renderWords (L : CheckCex.Lang) : String :=
+  String.intercalate " " (L.map fun w => if w.isEmpty then "ε" else String.join w)
+
 end CheckAll
 end Gamba
